@@ -486,6 +486,21 @@ def h_dict(I, st, fv, args, kwargs, ctx):
     return [(st, r)]
 
 
+def h_minmax(fn):
+    def h(I, st, fv, args, kwargs, ctx):
+        vals = list(args)
+        if len(vals) == 1:
+            its = I.known_items(st, vals[0])
+            if its is None:
+                raise OutOfReach("%s over a sequence of unknown length" % fn.__name__)
+            vals = its
+        if kwargs or not vals or not all(isinstance(v, Conc) and isinstance(v.py, (int, float)) and not isinstance(v.py, bool)
+                                         and v.py == v.py for v in vals):
+            raise OutOfReach("%s of symbolic values" % fn.__name__)
+        return [(st, Conc(fn(v.py for v in vals)))]
+    return h
+
+
 def h_enumerate(I, st, fv, args, kwargs, ctx):
     its = I.known_items(st, args[0])
     if its is None or len(args) != 1 or kwargs:
@@ -628,6 +643,8 @@ def install(I):
     L["new:dict"] = h_dict
     L["zip"] = h_zip
     L["enumerate"] = h_enumerate
+    L.setdefault("max", h_minmax(max))
+    L.setdefault("min", h_minmax(min))
     L["map"] = h_map
     L["print"] = h_noop
     L["warnings.warn"] = h_noop
